@@ -297,7 +297,7 @@ func (e *Engine) isVerified(con *Contract) bool {
 		return false
 	}
 	_, ok := e.funcsByKey[con.Key()]
-	return ok && strings.HasPrefix(con.Pkg, modPath)
+	return ok && len(con.Props) > 0
 }
 
 // assignsMemNames approximates which memory components an assigns entry touches (for loop havoc).
@@ -469,9 +469,6 @@ func (vc *VC) run() {
 		}
 		o := vc.addObl(fr, ex.st, "post", lbl, g, e, token.NoPos)
 		if o != nil {
-			for _, p := range fn.Params {
-				o.Evals = append(o.Evals, NamedTerm{p.Name(), fr.vals[p]})
-			}
 			o.Evals = append(o.Evals, extraEvals...)
 		}
 	}
